@@ -492,6 +492,9 @@ theorem noFin_accepting (U : Universe) : Accepting (PlainBlock U) (NoFin U) wher
   add := fun s b hg => by
     have hp := orphanAdd_poolOnly s b
     exact hg.of_eq hp.cfg hp.headers hp.ckpts hp.tree
+  drop := fun s o hg => by
+    have hp := orphanDelete_poolOnly s o
+    exact hg.of_eq hp.cfg hp.headers hp.ckpts hp.tree
   reorg := fun s h hg => hg.of_eq (by simp) (by simp) (by simp) (by simp)
 
 theorem inv_init {U : Universe} (cfg : Config) {g : Header} (hg : Coh U g) (h0 : g.height = 0) :
